@@ -316,7 +316,7 @@ def _stores(s):
     return out
 
 
-def check_module(repo, modname, rule, label, Ob, callers_only=False):
+def check_module(repo, modname, rule, label, Ob, callers_only=False, only_names=None):
     """one obligation per function of the module: every path evaluates balanced literals"""
     m = repo.modules.get(modname)
     if m is None:
@@ -333,6 +333,8 @@ def check_module(repo, modname, rule, label, Ob, callers_only=False):
                 if t is not None and t is not fi:
                     called.add(t.qualname)
     for fi in fis:
+        if only_names is not None and fi.name not in only_names:
+            continue
         bad, notes, rets = bal.paths(fi)
         helper = fi.qualname in called and not fi.name.startswith("visit_")
         if helper and bad and not notes:
